@@ -721,6 +721,7 @@ func (x *Exec) recv(st *State, in *ssa.UnOp, ch Val) {
 	st.assume(tImp(okT, x.chanInvFor(st, in.X, ch, v)))
 	x.d.DeclareFun("uf_neverclosed_0", []string{"Ref"}, "Bool")
 	st.assume(tImp("(uf_neverclosed_0 "+ch.L[0]+")", okT))
+	x.noteRecv(st, in.X, ch, v, okT)
 	if !in.CommaOk {
 		z := zeroVal(et)
 		out := Val{T: in.Type()}
@@ -766,6 +767,47 @@ func (x *Exec) noteSend(st *State, chv ssa.Value, ch Val, v Val, cond Term, pos 
 		prev = rnil
 	}
 	st.ghostInt["lastsent:"+ck] = tIte(cond, v.L[0], prev)
+	x.noteLast(st, "lastsent:", ck, v, cond)
+	x.noteLast(st, "sentch:", ck, ch, cond)
+}
+
+// noteLast keeps every leaf of the last value sent on / received from a channel key
+// (multi-leaf element types such as interfaces).
+func (x *Exec) noteLast(st *State, pfx, ck string, v Val, cond Term) {
+	if x.chanElem == nil {
+		x.chanElem = map[string]types.Type{}
+	}
+	x.chanElem[pfx+ck] = v.T
+	z := zeroVal(v.T)
+	for i := range v.L {
+		k := fmt.Sprintf("%s%s#%d", pfx, ck, i)
+		prev, ok := st.ghostInt[k]
+		if !ok {
+			prev = z.L[i]
+		}
+		st.ghostInt[k] = tIte(cond, v.L[i], prev)
+	}
+}
+
+// noteRecv counts values taken from a channel key on this path (ghost nrecv / lastrecv).
+func (x *Exec) noteRecv(st *State, chv ssa.Value, chVal Val, v Val, cond Term) {
+	ck := x.chanKey(chv)
+	if ck == "" {
+		if n := x.localNameOf(st.top().fn, chv); n != "" {
+			ck = "local." + n
+		}
+	}
+	if ck == "" {
+		return
+	}
+	key := "recv:" + ck
+	cur, ok := st.ghostInt[key]
+	if !ok {
+		cur = "0"
+	}
+	st.ghostInt[key] = tIte(cond, "(+ "+cur+" 1)", cur)
+	x.noteLast(st, "lastrecv:", ck, v, cond)
+	x.noteLast(st, "recvch:", ck, chVal, cond)
 }
 
 func (x *Exec) send(st *State, in *ssa.Send) {
@@ -799,6 +841,7 @@ func (x *Exec) selectStmt(st *State, b *ssa.BasicBlock, idx int, in *ssa.Select)
 			// a receive from a channel that is never closed always yields a sent value
 			x.d.DeclareFun("uf_neverclosed_0", []string{"Ref"}, "Bool")
 			st.assume(tImp(tAnd(chosen, "(uf_neverclosed_0 "+ch.L[0]+")"), recvOk))
+			x.noteRecv(st, s.Chan, ch, v, tAnd(chosen, recvOk))
 			z := zeroVal(et)
 			for i := range v.L {
 				out.L = append(out.L, tIte(recvOk, v.L[i], z.L[i]))
